@@ -42,7 +42,7 @@ func (v *requiredValidator) generate(out *codegen.Emitter, format string) {
 	// The container itself may be null (if the type is ["null", "object"]), in which case
 	// the map will be nil and none of the properties are present. This shouldn't fail
 	// the validation, though, as that's allowed as long as the container is allowed to be null.
-	out.Printlnf(`if _, ok := %s["%s"]; %s != nil && !ok {`, varNameRawMap, v.jsonName, varNameRawMap)
+	out.Printlnf(`if _, ok := %s[%q]; %s != nil && !ok {`, varNameRawMap, v.jsonName, varNameRawMap)
 	out.Indent(1)
 	out.Printlnf(`return fmt.Errorf("field %s in %s: required")`, v.jsonName, v.declName)
 	out.Indent(-1)
@@ -78,7 +78,7 @@ func (v *nullTypeValidator) generate(out *codegen.Emitter, format string) {
 		out.Indent(1)
 	}
 
-	fieldName = fmt.Sprintf(`"%s"`, fieldName)
+	fieldName = fmt.Sprintf(`%q`, fieldName)
 	if len(indexes) > 0 {
 		fieldName = fmt.Sprintf(`fmt.Sprintf(%s, %s)`, fieldName, strings.Join(indexes, ", "))
 	}
@@ -113,7 +113,7 @@ type defaultValidator struct {
 func (v *defaultValidator) generate(out *codegen.Emitter, format string) {
 	defaultValue := v.dumpDefaultValue(out)
 
-	out.Printlnf(`if v, ok := %s["%s"]; !ok || v == nil {`, varNameRawMap, v.jsonName)
+	out.Printlnf(`if v, ok := %s[%q]; !ok || v == nil {`, varNameRawMap, v.jsonName)
 	out.Indent(1)
 	out.Printlnf(`%s = %s`, getPlainName(v.fieldName), defaultValue)
 	out.Indent(-1)
@@ -206,7 +206,7 @@ func (v *arrayValidator) generate(out *codegen.Emitter, format string) {
 		out.Indent(1)
 	}
 
-	fieldName = fmt.Sprintf(`"%s"`, fieldName)
+	fieldName = fmt.Sprintf(`%q`, fieldName)
 	if len(indexes) > 0 {
 		fieldName = fmt.Sprintf(`fmt.Sprintf(%s, %s)`, fieldName, strings.Join(indexes, ", "))
 	}
@@ -291,7 +291,7 @@ func (v *stringValidator) generate(out *codegen.Emitter, format string) {
 	if v.minLength != 0 {
 		out.Printlnf(`if %slen(%s%s) < %d {`, checkPointer, pointerPrefix, value, v.minLength)
 		out.Indent(1)
-		out.Printlnf(`return fmt.Errorf("field %%s length: must be >= %%d", "%s", %d)`, fieldName, v.minLength)
+		out.Printlnf(`return fmt.Errorf("field %%s length: must be >= %%d", %q, %d)`, fieldName, v.minLength)
 		out.Indent(-1)
 		out.Printlnf("}")
 	}
@@ -299,7 +299,7 @@ func (v *stringValidator) generate(out *codegen.Emitter, format string) {
 	if v.maxLength != 0 {
 		out.Printlnf(`if %slen(%s%s) > %d {`, checkPointer, pointerPrefix, value, v.maxLength)
 		out.Indent(1)
-		out.Printlnf(`return fmt.Errorf("field %%s length: must be <= %%d", "%s", %d)`, fieldName, v.maxLength)
+		out.Printlnf(`return fmt.Errorf("field %%s length: must be <= %%d", %q, %d)`, fieldName, v.maxLength)
 		out.Indent(-1)
 		out.Printlnf("}")
 	}
@@ -343,7 +343,7 @@ func (v *numericValidator) generate(out *codegen.Emitter, format string) {
 		}
 
 		out.Indent(1)
-		out.Printlnf(`return fmt.Errorf("field %%s: must be a multiple of %%v", "%s", %f)`, v.jsonName, *v.multipleOf)
+		out.Printlnf(`return fmt.Errorf("field %%s: must be a multiple of %%v", %q, %f)`, v.jsonName, *v.multipleOf)
 		out.Indent(-1)
 		out.Printlnf("}")
 	}
@@ -380,7 +380,7 @@ func (v *numericValidator) genBoundary(
 
 	out.Printlnf(`if %s%v %s%s %s {`, checkPointer, v.valueOf(*boundary), comp, pointerPrefix, value)
 	out.Indent(1)
-	out.Printlnf(`return fmt.Errorf("field %%s: must be %s %%v", "%s", %v)`, sign, v.jsonName, v.valueOf(*boundary))
+	out.Printlnf(`return fmt.Errorf("field %%s: must be %s %%v", %q, %v)`, sign, v.jsonName, v.valueOf(*boundary))
 	out.Indent(-1)
 	out.Printlnf("}")
 }
